@@ -174,6 +174,14 @@ class PathsProfile(StoreProfile):
             back = X.SidObs(o1)
             run.check(back.uri == m.uri(s, tn), "C05.roundtrip", {"sid": m.uri(s, tn), "cfg": c, "path": p, "back": back.uri})
             run.check(back.fields == list(m.fields(tn, s).items()), "C05.roundtrip_fields", {"sid": s, "back": back.fields})
+            # the Sid that came back from the path is the same value: its path (default configuration, and each
+            # configuration) is what the string-built Sid's is -- whichever configuration it was resolved in
+            o2 = run.do(X.seq(X.meth(e1, "path"), X.meth(X.sid(s), "path"), X.meth(e1, "path", m.configs[0])))["~seq"]
+            wantd = m.path_of(tn, m.fields(tn, s), m.default_config)
+            want0 = m.path_of(tn, m.fields(tn, s), m.configs[0])
+            got = [o.get("~P") if isinstance(o, dict) else o for o in o2]
+            run.check(got == [wantd, wantd, want0], "C05.path_of_path_built_sid",
+                      {"sid": s, "built_with": c, "got": got, "want": [wantd, wantd, want0]})
 
 
 PROFILE = PathsProfile()
